@@ -32,7 +32,7 @@ RULE = (
     "single points; optional millisecond parts), a layout per set (labelled "
     "dimension with unique labels in arbitrary order, time as dimension, scan "
     "line x scan position grid), max_distance 1 m .. 2000 km as number or "
-    "unit string, max_interval 1 s .. 3 h as int / float / string / "
+    "unit string, max_interval 1 s .. 3 h as int / float / NumPy scalar / string / "
     "timedelta or None (spatial search only), start / end from {None, a point "
     "time, between point times} as datetime or string, tuning parameters and "
     "the shuffle rule of the spatial index; every case is re-run under drawn "
@@ -152,6 +152,12 @@ def interval_argument(spec):
         return float(s)
     if how == "td":
         return dt.timedelta(seconds=s)
+    if how.startswith("np."):
+        # NumPy scalar (an element of an array, a file attribute)
+        return getattr(np, how[3:])(s)
+    if how == "pd.Timedelta":
+        import pandas as pd
+        return pd.Timedelta(seconds=s)
     if how in ("s", "seconds", "sec"):
         return "%d %s" % (s, how)
     if how in ("min", "minutes"):
@@ -168,6 +174,15 @@ def window_argument(spec):
     t = BASE + dt.timedelta(milliseconds=spec["ms"])
     if spec["as"] == "str":
         return t.strftime("%Y-%m-%d %H:%M:%S")
+    if spec["as"] == "iso":
+        return t.isoformat()
+    if spec["as"] == "iso-space":
+        return t.isoformat(sep=" ")
+    if spec["as"] == "np.datetime64":
+        return np.datetime64(t, "ms")
+    if spec["as"] == "pd.Timestamp":
+        import pandas as pd
+        return pd.Timestamp(t)
     return t
 
 
@@ -565,6 +580,9 @@ def label_call(ctx, call, exp, col, sets, layouts, k, prev_build):
         ctx.label("straddle-M")
     if exp.window_cut:
         ctx.label("window-cut")
+    for edge in (call.get("start"), call.get("end")):
+        if edge is not None:
+            ctx.label("window-as-" + edge["as"])
     if len(p1["id"]) == 1 or len(p2["id"]) == 1:
         ctx.label("single-point")
     for key in (call["primary"], call["secondary"]):
@@ -662,7 +680,9 @@ def interval_specs(draw, seconds=None, allow_none=False):
         seconds = draw(st.one_of(
             st.sampled_from([1, 2, 5, 30, 60, 300, 600, 3600, 7200]),
             st.integers(1, 10800)))
-    hows = ["int", "int", "float", "td", "s", "seconds", "sec"]
+    hows = ["int", "int", "float", "td", "s", "seconds", "sec",
+            "np.int64", "np.int32", "np.int16", "np.float64", "np.float32",
+            "pd.Timedelta"]
     if seconds % 60 == 0:
         hows += ["min", "minutes"]
     if seconds % 3600 == 0:
@@ -678,21 +698,31 @@ def tunings():
 
 
 @st.composite
-def window_specs(draw, all_times, whole_seconds):
-    """(start, end) from {None, a point time, between point times}"""
-    def edge():
+def window_specs(draw, all_times, whole_seconds, loose=False):
+    """(start, end) from {None, a point time, between point times};
+    loose: a window is always given and its edges often lie outside all the
+    data (start / end are set but cut nothing)"""
+    def edge(low):
+        if loose and draw(st.booleans()):
+            k = draw(st.sampled_from([1, 1, 60, 86400])) * 1000
+            t = all_times[0] - k if low else all_times[-1] + k
+            return {"ms": t, "as": draw(st.sampled_from(
+                ["datetime", "iso", "np.datetime64", "pd.Timestamp", "str"]))}
         t = draw(st.sampled_from(all_times))
         how = draw(st.sampled_from(["at", "at", "before", "after"]))
         if how == "before":
             t -= 500 if not whole_seconds or draw(st.booleans()) else 1000
         elif how == "after":
             t += 500 if not whole_seconds or draw(st.booleans()) else 1000
-        as_ = "str" if t % 1000 == 0 and draw(st.booleans()) else "datetime"
+        as_ = draw(st.sampled_from(
+            ["datetime", "datetime", "iso", "iso-space", "np.datetime64",
+             "pd.Timestamp"] + (["str", "str"] if t % 1000 == 0 else [])))
         return {"ms": t, "as": as_}
-    mode = draw(st.sampled_from(["none", "none", "none", "start", "end",
-                                 "both", "both"]))
-    start = edge() if mode in ("start", "both") else None
-    end = edge() if mode in ("end", "both") else None
+    mode = draw(st.sampled_from(
+        ["start", "end", "both", "both"] if loose else
+        ["none", "none", "none", "start", "end", "both", "both"]))
+    start = edge(True) if mode in ("start", "both") else None
+    end = edge(False) if mode in ("end", "both") else None
     if start and end and start["ms"] > end["ms"] and draw(
             st.sampled_from([True, True, True, False])):
         start, end = end, start
@@ -735,8 +765,11 @@ def layouts_for(draw, pset, allow_grid, allow_time=True):
 def call_specs(draw, a, b, distance, interval, all_times, whole_seconds,
                window=True):
     start = end = None
-    if window and (interval is not None or draw(
-            st.sampled_from([False, False, True]))):
+    if window and interval is None and draw(st.booleans()):
+        # spatial search only: the window alone selects the data, whatever
+        # the time spans of the two datasets are
+        start, end = draw(window_specs(all_times, whole_seconds, loose=True))
+    elif window and interval is not None:
         start, end = draw(window_specs(all_times, whole_seconds))
     names = draw(st.sampled_from([None, None, ["A", "B"], ["sat", "ground"]]))
     return {"primary": a, "secondary": b,
